@@ -9,6 +9,7 @@ import (
 	"go/types"
 	"os"
 	"path/filepath"
+	"runtime/debug"
 	"sort"
 	"strings"
 	"sync"
@@ -320,6 +321,9 @@ func run(t0 time.Time) int {
 				if r := recover(); r != nil {
 					rmu.Lock()
 					undecided = append(undecided, fmt.Sprintf("engine-panic:%s:%v", spec.Key, r))
+					if *flagVerbose {
+						fmt.Fprintln(os.Stderr, string(debug.Stack()))
+					}
 					rmu.Unlock()
 				}
 			}()
